@@ -18,7 +18,7 @@
 #include "llvm/ADT/SmallString.h"
 using namespace llvm;
 
-static std::string tyStr(Type *T){ std::string s; raw_string_ostream os(s); T->print(os); return os.str(); }
+static std::string tyStr(Type *T){ if (auto*ST=dyn_cast<StructType>(T)) if (ST->hasName()) return "%"+ST->getName().str(); std::string s; raw_string_ostream os(s); T->print(os); return os.str(); }
 static std::string apStr(const APInt &A, bool sgn=false){ SmallString<40> S; A.toString(S,10,sgn); return std::string(S.str()); }
 
 static bool pointeeConst(const DIType *T){
